@@ -115,6 +115,7 @@ class Program:
                 b = Body(d)
                 s.bodies[b.fn] = b
         s._cg = None
+        s.aliases = []
 
     def body(s, fn):
         return s.bodies.get(fn)
@@ -162,6 +163,11 @@ def load_program(path):
     except Exception:
         pass
     p = Program(path)
+    try:
+        import anchors
+        p.aliases = anchors.normalise(p)
+    except Exception as e:
+        p.aliases = []
     try:
         tmp = pk + ".%d" % os.getpid()
         with open(tmp, "wb") as f:
